@@ -549,6 +549,9 @@ func (w *World) RunCall(conn grpc.ClientConnInterface, spec *CallSpec) {
 			w.Log(Event{Actor: actor, Op: "cancel"})
 		case "sleep":
 			w.Sleep(op.D)
+		case "waitdone":
+			// wait until the RPC has been finished from the other side (its context is done)
+			w.WaitUntil("c:waitdone", func() bool { return cs.Context().Err() != nil })
 		case "waitpeer":
 			// wait until the scripted peer has nothing more to say (it parks at raw:rpc-done
 			// or has finished) - the explorer decides when the caller then proceeds
